@@ -260,7 +260,6 @@ func getFirstBraceClosingIndex(s string) int {
 		}
 		if s[i] == '{' {
 			openVariableBraces++
-			i++
 		}
 	}
 	return -1
